@@ -281,6 +281,27 @@ pub fn run(prop: &str, tier: &str, replay: Option<&str>) -> i32 {
             run::levels(&sec, &cspace, if thorough && !rsa { 2 } else { 1 }, &|st, _| judge_cert(st, k, Some(&issuer), &subject));
             rep.add(sec);
         }
+        // large artefacts: total length below / at / above 64 KiB (0x82 vs 0x83 length forms)
+        if !rsa {
+            let sizes = [65000usize, 65400, 65536, 70000, 140000];
+            let sec = Section::new(&format!("large/key{:02}", ki), &format!("certificate (custom extension content), CSR (dNSName) and CRL (revoked entries) sized below, at and above 64 KiB; signer {}", k.label));
+            run::sweep_cases(&sec, &sizes.to_vec(), &|n| format!("about {} bytes", n), &|n| {
+                let mut st = CertState::default();
+                st.custom_exts = vec![CustomExtSpec { oid: vec![1, 2, 3, 4], critical: false, content: refmodel::der::octet(&vec![0x11; *n]), acme: false }];
+                let mut out = judge_cert(&st, k, None, k);
+                let mut c = super::c07::CsrCase { st: CertState::default(), attrs: vec![] };
+                c.st.sans = vec![SanSpec::Uri("u".repeat(*n))];
+                let o2 = judge_csr(&c, k, None);
+                out.findings.extend(o2.findings);
+                let crl = CrlState { revoked: (0..(*n / 22) as u32).map(|i| RevokedSpec { serial: i.to_be_bytes().to_vec(), time: TimeSpec::ymd(2023, 1, 1), reason: None, invalidity: None }).collect(), ..base_crl_state() };
+                let iss_ref = IssuerRealRef { cert: &issuer.cert, spec: &issuer.spec };
+                let o3 = judge_crl_with(&crl, &iss_ref, k);
+                out.findings.extend(o3.findings);
+                out.transitions += o2.transitions + o3.transitions;
+                out
+            });
+            rep.add(sec);
+        }
         // CSRs (+ certificates issued from the parsed request)
         {
             let sspace = super::c07::csr_space(false);
